@@ -169,6 +169,16 @@ def finish(module, repo: Optional[Repo], res: Result, tier: str, seed: int, t0: 
             print(f"{o['where']}  {o['rule']}  in {o['site']}\n    construct: {o['shown']}\n"
                   f"    expected : {o['expected']}\n    found    : {o['found']}")
             print(f"VIOLATION property={pid} replay=<not written: VERIF_NOEVIDENCE>")
+    if not no_files and replay is None:
+        # replay files describe the violations of the latest run of this property only
+        rdir = os.path.join(ev_dir, "replay")
+        if os.path.isdir(rdir):
+            for fn in os.listdir(rdir):
+                if fn.startswith(pid + "-"):
+                    try:
+                        os.remove(os.path.join(rdir, fn))
+                    except OSError:
+                        pass
     if violations and not no_files:
         rdir = os.path.join(ev_dir, "replay")
         os.makedirs(rdir, exist_ok=True)
